@@ -335,11 +335,20 @@ def run_states(ctx, rep):
         f = ix.funcs.get("quara.objects.state." + fn_name)
         if f is None or cat_name not in vec:
             continue
-        lits = [x for x in ce.literals(f) if x[0] == "from_vec"]
+        want_len = 4 if cat_name != "bell_phi_plus" else 16
+
+        def is_vec(x):
+            try:
+                a = np.asarray(x, dtype=complex)
+                return a.ndim == 1 and a.shape[0] == want_len
+            except Exception:
+                return False
+        lits = [x for x in ce.literals_through(f) if is_vec(x[1])]
         con = "state.%s vs catalogue '%s'" % (fn_name, cat_name)
-        if len(lits) != 1:
-            rep.undecided("Y8", f, con, "expected one literal coefficient vector `from_vec`")
+        if not lits:
+            rep.undecided("Y8", f, con, "no literal coefficient vector of length %d found" % want_len)
             continue
+        lits = lits[-1:]          # the last one assigned is the one handed on (earlier ones are unscaled ingredients)
         lv = np.asarray(lits[0][1], dtype=complex)
         v = vec[cat_name]
         rho = np.outer(v, v.conj())
@@ -356,9 +365,17 @@ def run_states(ctx, rep):
             continue
         con = "gate.%s vs catalogue '%s'" % (fn_name, g)
         uq = ix.funcs.get(G + "generate_gate_%s_unitary_mat" % g)
-        lits = ce.literals(f)
-        pa = [x for x in lits if x[0] == "matrix" and np.asarray(x[1]).shape == (4, 4)]
-        cb = [x for x in lits if x[0] == "hs_comp_basis" and np.asarray(x[1]).shape == (16, 16)]
+        lits = ce.literals_through(f)
+
+        def shaped(x, shp):
+            try:
+                return np.asarray(x).shape == shp
+            except Exception:
+                return False
+        # the tables are identified by their shape (a 4x4 Pauli-basis table, a 16x16 computational-basis table), not by the
+        # name of the local that holds them
+        pa = [x for x in lits if shaped(x[1], (4, 4))]
+        cb = [x for x in lits if shaped(x[1], (16, 16))]
         if g == "identity":
             if len(pa) == 1:
                 rep.check(close(np.asarray(pa[0][1]), np.eye(4)), "Y8", f, con, "identity", "literal is not the identity", node=pa[0][3])
